@@ -269,7 +269,7 @@ def pipeline(draw):
                 src["value"] = draw(st.integers(-4, 4))
     knd = np.dtype(dtype).kind  # coarse dtype kind of the current value: i / f / b
     steps = []
-    for _ in range(draw(st.integers(1, 5))):
+    for _ in range(draw(st.sampled_from([1, 2, 2, 3, 3, 4, 4, 5]))):
         nd = len(shape)
         size = int(np.prod(shape)) if shape else 1
         ops = ["unary", "scalar", "scalar", "astype", "map_blocks", "clip"]
